@@ -59,18 +59,27 @@ def hash_seed_of(seed, shard):
     return (int(seed) * 131 + int(shard) * 7919 + 1) % 4294967295
 
 
-def run_shard(prop, tier, seed, shard, nshards, cases, seconds, outdir, only_index=None, verbose=False, hash_seed=None):
+def run_shard(prop, tier, seed, shard, nshards, cases, seconds, outdir, only_index=None, verbose=False, hash_seed=None,
+              family=None):
     out = os.path.join(outdir, f"shard{shard}.json")
     cmd = [sys.executable, "-W", "ignore", "-m", "hvmon.shard", prop, "--tier", tier, "--seed", str(seed),
            "--shard", str(shard), "--nshards", str(nshards), "--cases", str(cases),
            "--seconds", str(seconds), "--out", out]
     if only_index is not None:
         cmd += ["--only-index", str(only_index)]
+    if family is not None:
+        cmd += ["--family", str(family)]
     if verbose:
         cmd += ["--verbose"]
     env = dict(os.environ)
     hash_seed = hash_seed_of(seed, shard) if hash_seed is None else int(hash_seed)
     env["PYTHONHASHSEED"] = str(hash_seed)
+    # every fourth shard runs in a plain C/POSIX locale without UTF-8 mode (cron jobs, minimal containers): the default
+    # text encoding of open() is then ASCII; the others run with UTF-8.  Decided by the hash seed, so a replay repeats it.
+    if hash_seed % 4 == 2:
+        env.update(LC_ALL="C", LANG="C", PYTHONUTF8="0", PYTHONCOERCECLOCALE="0")
+    else:
+        env.update(LC_ALL="C.utf8", LANG="C.utf8", PYTHONUTF8="1")
     watchdog = seconds * 4 + 600  # generous; a firing watchdog is inconclusive, never a violation
     try:
         p = subprocess.run(cmd, cwd=HERE, env=env, capture_output=not verbose, text=True, timeout=watchdog)
@@ -82,6 +91,7 @@ def run_shard(prop, tier, seed, shard, nshards, cases, seconds, outdir, only_ind
     with open(out) as f:
         res = json.load(f)
     res["hash_seed"] = hash_seed
+    res["locale"] = env["LC_ALL"]
     for v in res.get("violations", []):
         v["hash_seed"] = hash_seed
     return res
@@ -121,7 +131,7 @@ def main(argv=None):
             with open(replay) as f:
                 rp = json.load(f)
             res = run_shard(prop, rp.get("tier", tier), rp["seed"], 0, 1, 1, 3600, scratch,
-                            only_index=rp["index"], verbose=True, hash_seed=rp.get("hash_seed", 0))
+                            only_index=rp["index"], verbose=True, hash_seed=rp.get("hash_seed", 0), family=rp.get("family"))
             if "dead" in res:
                 print(f"INCONCLUSIVE property={prop} reason=replay shard {res['dead']}")
                 print(res.get("stderr", ""))
@@ -236,6 +246,7 @@ def aggregate(prop, mod, tier, seed, results, known, wall):
             "distinct_states_or_configurations": len(states),
             "shards": len(results),
             "python_hash_seeds": sorted({r.get("hash_seed") for r in results if r.get("hash_seed") is not None}),
+            "shard_locales": sorted({r.get("locale") for r in results if r.get("locale")}),
             "known_findings_matched": {k: n for k, (f, n) in matched.items()},
             "inconclusive": inconclusive,
             "not_reached": getattr(mod, "NOT_REACHED", []),
